@@ -384,3 +384,20 @@ pub fn run_worker(prop: &Prop, a: &WorkerArgs) -> i32 {
     let _ = std::fs::remove_file(&cur_path);
     0
 }
+
+/// Byte-driven execution of a monitor (used by the libFuzzer/ASan tier and by `verif-driver bytes`):
+/// runs `f` on `data` with a fresh accumulator and returns the violations it recorded.
+pub fn run_bytes(f: fn(&mut Case, &[u8]), data: &[u8]) -> Vec<Violation> {
+    let mut acc = Acc { sample_cap: 0, ..Default::default() };
+    let mut case = Case {
+        idx: 0,
+        tier: Tier::Quick,
+        seed: 0,
+        profile: PROFILE,
+        rng: Rng::new(hash_of(&data)),
+        replaying: true,
+        acc: &mut acc,
+    };
+    f(&mut case, data);
+    acc.violations
+}
